@@ -3,9 +3,30 @@ import json, os, re
 from vlib import common as C
 from vlib import simlib
 
+MANIFEST = {
+    "text": "proof, partial.  PROVED in Lean (all-quantified, about the transcription M of src/coap_block.c, M tied to the compiled code by "
+            "differential runs of the real functions): Block option encode/decode round trip and bounds; the slices of any body at any block size "
+            "tile it, offsets and More bits are right, a size reduction keeps the byte offset and the SZX on the wire; the received-ranges "
+            "structure represents exactly the accepted block numbers (sorted, disjoint, non-adjacent, capacity, exact membership / all-in, refused "
+            "insert is a no-op) for every insertion sequence; reassembly of all blocks in any order with any duplicates yields the body; every block "
+            "message coap_add_data_large_internal plans fits the maximum size (first and all follow-up blocks); and for the server's "
+            "single-body Block1 receive automaton (coap_handle_request_put_block: unit conversion after early size reduction, no_more_seen gate, "
+            "with or without Size1): never_wrong_body_partial (any order/duplicates/losses of genuine blocks: whatever is delivered is exactly "
+            "the sender's body) and at_most_once_per_transfer_partial (a delivery releases the receiver state).  TRACE-CHECKED ONLY (real client "
+            "+ real server contexts, virtual clock, drop/duplicate schedules, oracle over the trace; no Lean model): the sender side (lg_xmit, "
+            "retransmission, token substitution/restoration), the client's Block2 receive path, per-block mode, CON/NON, two concurrent "
+            "transfers, MTU bound on every datagram, release callback count, lossless => one delivery + one success response, exhausted "
+            "Confirmable => NACK or error response.  Not covered: Q-Block (RFC 9177), BERT, Block+Observe.",
+    "note": "Trusted: Lean kernel (+ propext, Classical.choice, Quot.sound), the T1 extractor, harness/block.c + block_sim.h + sim_core.h, generators, "
+            "the Python trace oracle, the hand transcription M (checked against the compiled code only on the cases run).  SPEC DECISIONS D6 "
+            "(duplicated request datagram = new request), D13, D14, D15 (refusing for lack of room is an explicit failure), D16 (abandoned = "
+            "retransmissions exhausted).  One open finding is reported as KNOWN-FINDING (c09-late-message-raw-token).",
+    "design_ref": "DESIGN.md §4 C09, design/C09.md",
+}
 LEAN_MODULES = ["CoapVerif.Props.C09"]
 NAMESPACE = "Coap.C09"
-REQUIRED_THEOREMS = ["block_opt_roundtrip", "blocks_tile_body", "rblock_represents", "reassembly_exact", "block_fits_mtu"]
+REQUIRED_THEOREMS = ["block_opt_roundtrip", "blocks_tile_body", "rblock_represents", "reassembly_exact", "block_fits_mtu",
+                     "never_wrong_body_partial", "at_most_once_per_transfer_partial"]
 RULE = ("Layer A: block option values (all single bytes, random 0-3 byte values, boundary NUMs), setup_block_b / coap_write_block_b_opt / "
         "coap_add_data_large_request with the available room around every power of two, slices of bodies whose length is k*2^(szx+4)+{-1,0,1} "
         "for szx 0..6 and random lengths to 64 KiB, every 3-insertion sequence over 5 block numbers plus random longer ones for the received "
@@ -18,7 +39,10 @@ TRUSTED_BASE = ["Lean 4.33 kernel; axioms allowed: propext, Classical.choice, Qu
                 "the Python trace oracle (judge_xfer) and string comparison",
                 "M (CoapVerif/Model/Block.lean) is a hand transcription of the Layer A functions; checked against the compiled code only on the cases run"]
 ASSUMPTIONS = ["block numbers < 2^31 at every call of the range functions (coap_get_block_b rejects NUM > 0xFFFFF)",
-               "Layer B has no Lean automaton: it is checked as I-vs-S trace conformance only (no M)",
+               "Layer B: only the server's single-body Block1 receive automaton is under theorems; everything else of the protocol is "
+               "checked as I-vs-S trace conformance only (no M)",
+               "never_wrong_body_partial: every datagram carries the sender's slice for its NUM/SZX, SZX not below the size the receiver tracks, "
+               "an announced Size1 is at most the true length, body < 2^31 bytes",
                "compiled Lean definitions agree with the kernel's reading of them"]
 SPEC_DECISIONS = ["D15 coap_add_data_large_request/_response returning 0 (no room for even the smallest block within the maximum "
                   "message size, after the 43+8 bytes libcoap reserves for Echo and token) is an explicit failure, not a violation of "
@@ -28,9 +52,6 @@ SPEC_DECISIONS = ["D15 coap_add_data_large_request/_response returning 0 (no roo
                   "D6 duplicates are judged while the receiver still holds the transfer's state; a duplicated REQUEST datagram is a new request "
                   "(libcoap keeps no request de-duplication state)", "D13 Size1/Size2 are optional; when present they announce at most the true length",
                   "D14 per-block mode: every delivered (offset,len) must be a genuine slice; exact tiling is demanded for loss- and duplicate-free schedules"]
-# MANIFEST is deliberately NOT defined yet: the check is clean at seeds 1,2,4,5 but seed 3 still reports two Layer-B
-# contradictions that have not been triaged (see design/C09.md).
-
 
 def render_const(d):
     pairs = lambda xs: "[" + ", ".join("(" + ", ".join(str(v) for v in x) + ")" for x in xs) + "]"
@@ -421,7 +442,7 @@ def judge_xfer(ctx, c):
     nacks = [0] * ntr
     rel = None
     con_tx = {}                                 # client CON mid -> transmissions
-    blockwise = False                           # more than one block was involved
+    blockwise = [False, False]                  # per transfer: more than one block was involved (seen on its first exchange)
     concluded = False                           # some final response already reached the application
     for t in toks:
         f = t.split(":")
@@ -431,8 +452,8 @@ def judge_xfer(ctx, c):
             if int(f[13]) > x["mtu"]:
                 return ("spec", "datagram of %s bytes exceeds the session MTU %d: %s" % (f[13], x["mtu"], t))
             for bf in (f[5], f[6]):
-                if bf not in ("-", "bad") and (bf.split(".")[0] != "0" or bf.split(".")[1] == "1"):
-                    blockwise = True
+                if bf not in ("-", "bad") and (bf.split(".")[0] != "0" or bf.split(".")[1] == "1") and f[4] in ("app1", "app2"):
+                    blockwise[int(f[4][3]) - 1] = True
             if f[1] == "c" and f[2] == "C":
                 con_tx[f[14]] = con_tx.get(f[14], 0) + 1
         elif f[0] == "req" and x["dir"] in ("put", "rawput"):
@@ -472,7 +493,7 @@ def judge_xfer(ctx, c):
                     return ("spec", "transfer %d: the application was handed %d bytes at offset %d (hash %s); the sender's body is "
                                     "%d bytes (hash %s)" % (k + 1, l, off, h, ln, fnv(body)))
             # a duplicated REQUEST datagram is a new request (D6); a body that fits one message is not a block-wise transfer
-            if len(dl) > 1 and not duplicated and blockwise:
+            if len(dl) > 1 and not duplicated and (blockwise[k] or x["dir"] == "rawput"):
                 return ("spec", "transfer %d: body delivered %d times" % (k + 1, len(dl)))
         else:
             for (off, total, l, h) in dl:
